@@ -316,6 +316,7 @@ theorem compile_comm {n : Ast} {prog : Prog} (hn : n.isNode = true) (hq : n.all 
   · exact compileWith_comm hq h
   · exact compileWith_comm hq h
   · exact compileGlobal_comm h
+  · exact compileNonlocal_comm h
   · exact compileName_comm h
   · exact compileNamedExpr_comm hq h
   · simp only [pure_ok_iff] at h; subst h
